@@ -77,6 +77,8 @@ type Engine struct {
 	callArgs     map[string][][]Value // results of contract calls by callee name (spec: res(Callee_Name, i))
 	dynType      map[string]types.Type
 	arrayMode    bool
+	usedNilChan  bool
+	globalErrs   map[string]*Term
 	extraStreams []*Term
 }
 
@@ -129,7 +131,20 @@ func (e *Engine) oblName(kind string) string {
 
 // assert goal under st.pc; the goal is split into conjuncts, implications and top-level foralls are opened.
 func (e *Engine) assert(st *State, goal *Term, kind, where string, tags []string) {
-	e.assertSplit(st.pc, goal, kind, where, tags)
+	hyps := st.pc
+	if len(e.globalErrs) > 0 {
+		hyps = append([]*Term(nil), st.pc...)
+		for _, n := range sortedKeys(e.globalErrs) {
+			hyps = append(hyps, mkNot(mkEq(e.globalErrs[n], mkConst("nil", SRef))))
+		}
+	}
+	if e.usedNilChan {
+		if len(e.globalErrs) == 0 {
+			hyps = append([]*Term(nil), st.pc...)
+		}
+		hyps = append(hyps, mkEq(mkApp("slen", SInt, mkConst("nilchan", SInt)), mkInt(0)))
+	}
+	e.assertSplit(hyps, goal, kind, where, tags)
 }
 
 func (e *Engine) assertSplit(hyps []*Term, goal *Term, kind, where string, tags []string) {
@@ -147,6 +162,24 @@ func (e *Engine) assertSplit(hyps []*Term, goal *Term, kind, where string, tags 
 		h2 := append(append([]*Term(nil), hyps...), flattenAnd(goal.Args[0])...)
 		e.assertSplit(h2, goal.Args[1], kind, where, tags)
 		return
+	case goal.Op == "or":
+		// A || B  ==  !A ==> B: open the structured disjunct (quantifier / conjunction) under the negation of the others
+		pick := -1
+		for i, a := range goal.Args {
+			if a.Op == "forall" || a.Op == "and" || a.Op == "=>" {
+				pick = i
+			}
+		}
+		if pick >= 0 {
+			h2 := append([]*Term(nil), hyps...)
+			for i, a := range goal.Args {
+				if i != pick {
+					h2 = append(h2, flattenAnd(mkNot(a))...)
+				}
+			}
+			e.assertSplit(h2, goal.Args[pick], kind, where, tags)
+			return
+		}
 	case goal.Op == "forall":
 		m := map[string]*Term{}
 		for _, b := range goal.Bound {
@@ -213,6 +246,20 @@ func (e *Engine) execStmt(s ast.Stmt, st *State) []Out {
 	case *ast.BlockStmt:
 		return e.execBlock(x.List, st)
 	case *ast.ExprStmt:
+		// wg.Wait(): the spawned processes run to completion here (join)
+		if c, ok := x.X.(*ast.CallExpr); ok {
+			if se, ok := c.Fun.(*ast.SelectorExpr); ok && se.Sel.Name == "Wait" {
+				if sel := e.info().Selections[se]; sel != nil {
+					if fn, ok := sel.Obj().(*types.Func); ok && fn.Pkg() != nil && fn.Pkg().Path() == "sync" && len(st.procs) > 0 {
+						var outs []Out
+						for _, o := range e.runProcs(Out{st: st}) {
+							outs = append(outs, Out{st: o.st})
+						}
+						return outs
+					}
+				}
+			}
+		}
 		e.eval(x.X, st)
 		return []Out{{st: st}}
 	case *ast.EmptyStmt:
@@ -420,6 +467,14 @@ func (e *Engine) execAssign(x *ast.AssignStmt, st *State) {
 			e.assignTo(x.Lhs[1], VTerm{T: okT, Typ: types.Typ[types.Bool]}, st)
 			return
 		}
+		if ix, ok := ast.Unparen(x.Rhs[0]).(*ast.IndexExpr); ok && len(x.Lhs) == 2 {
+			if m, isMap := e.eval(ix.X, st).(VMap); isMap {
+				v, okT := e.mapGet(m, term(e.eval(ix.Index, st)))
+				e.assignTo(x.Lhs[0], v, st)
+				e.assignTo(x.Lhs[1], VTerm{T: okT, Typ: types.Typ[types.Bool]}, st)
+				return
+			}
+		}
 		v := e.eval(x.Rhs[0], st)
 		tup, ok := v.(VTuple)
 		if !ok || len(tup) != len(x.Lhs) {
@@ -467,6 +522,10 @@ func (e *Engine) assignTo(l ast.Expr, v Value, st *State) {
 	case *ast.IndexExpr:
 		base := e.eval(lx.X, st)
 		idx := term(e.eval(lx.Index, st))
+		if m, isMap := base.(VMap); isMap {
+			e.assignTo(lx.X, e.mapSet(m, idx, v), st)
+			return
+		}
 		sl, ok := base.(VSlice)
 		if !ok {
 			unsup("index assignment on %T at %s", base, e.src(l))
@@ -486,6 +545,22 @@ func (e *Engine) assignTo(l ast.Expr, v Value, st *State) {
 	default:
 		unsup("assignment target %T at %s", l, e.src(l))
 	}
+}
+
+// a nil literal returned / assigned where a channel or slice is expected
+func (e *Engine) coerceNil(v Value, t types.Type) Value {
+	vt, ok := v.(VTerm)
+	if !ok || vt.T.Op != "const" || vt.T.Name != "nil" {
+		return v
+	}
+	switch u := t.Underlying().(type) {
+	case *types.Chan:
+		e.usedNilChan = true
+		return VStream{ID: mkConst("nilchan", SInt), Elem: u.Elem()}
+	case *types.Slice:
+		return e.zeroValue(t)
+	}
+	return VTerm{T: vt.T, Typ: t}
 }
 
 func (e *Engine) boundsCheck(st *State, idx, ln *Term, where string) {
@@ -635,6 +710,9 @@ func (e *Engine) eval(x ast.Expr, st *State) Value {
 		case VSlice:
 			e.boundsCheck(st, idx, b.Len, e.src(ex))
 			return e.wrap(mkSelect(b.Arr, idx), b.Elem)
+		case VMap:
+			v, _ := e.mapGet(b, idx)
+			return v
 		}
 		unsup("index of %T at %s", base, e.src(ex))
 	case *ast.CompositeLit:
@@ -688,7 +766,12 @@ func (e *Engine) globalVar(o *types.Var) Value {
 	case *types.Slice:
 		return VSlice{Arr: mkConst(name+".arr", arraySort(SInt, e.elemSort(u.Elem()))), Len: mkConst(name+".len", SInt), Elem: u.Elem()}
 	}
-	return VTerm{T: mkConst(name, e.sortOf(o.Type())), Typ: o.Type()}
+	t := mkConst(name, e.sortOf(o.Type()))
+	if o.Type().String() == "error" {
+		// package-level error values are initialised once with errors.New / fmt.Errorf and never nil
+		e.globalErrs[name] = t
+	}
+	return VTerm{T: t, Typ: o.Type()}
 }
 
 func (e *Engine) evalBinary(ex *ast.BinaryExpr, st *State) Value {
@@ -846,6 +929,20 @@ func (e *Engine) readField(st *State, base VTerm, field string) Value {
 		ft = types.Unalias(a)
 	}
 	switch u := ft.Underlying().(type) {
+	case *types.Map:
+		if v, ok := st.memV[key]; ok {
+			return v
+		}
+		ks, vs, isSl, _ := e.mapSorts(u)
+		nm := "fld_" + tname + "_" + field
+		m := VMap{Has: mkApp(nm+"_has", arraySortK(ks, SBool), base.T), Val: mkApp(nm+"_val", arraySortK(ks, vs), base.T), Key: u.Key(), Elem: u.Elem()}
+		if isSl {
+			m.Len = mkApp(nm+"_len", arraySortK(ks, SInt), base.T)
+			e.nfresh++
+			b := mkVar(fmt.Sprintf("k$%d", e.nfresh), ks)
+			st.assume(mkForall([]*Term{b}, mkCmp(">=", mkSelect(m.Len, b), mkInt(0)), [][]*Term{{mkSelect(m.Len, b)}}))
+		}
+		return m
 	case *types.Slice:
 		if v, ok := st.memV[key]; ok {
 			return v
@@ -873,6 +970,8 @@ func (e *Engine) writeField(st *State, base VTerm, field string, v Value, where 
 	key := "fld:" + rs + "." + field
 	switch vv := v.(type) {
 	case VSlice:
+		st.memV[key] = vv
+	case VMap:
 		st.memV[key] = vv
 	case VStream:
 		st.mem[key] = vv.ID
